@@ -83,7 +83,9 @@ Definition plan_entry (c : cfg) (ds : path -> N * Z) (dst : fs) (e : sentry) : t
          end in
   mk_task (se_path e) a (Some e).
 
-(* plan_deletions: destination entries (scan order) whose relative path is not in the (filtered) source list *)
+(* plan_deletions: destination entries (scan order) whose relative path is not in the list it is given -- since
+   `fix: plan --delete against the whole source scan` that list is everything the scan found: the selected entries
+   [src] and the entries [keep] that a filter or size bound kept out of this run *)
 Definition plan_deletions (src : list sentry) (dst_listing : list path) : list task :=
   map (fun p => mk_task p ADelete None)
       (filter (fun p => negb (existsb (fun e => peqb (se_path e) p) src)) dst_listing).
@@ -169,10 +171,10 @@ Fixpoint exec_all (c : cfg) (now : Z) (m : fs) (ts : list task)
 (* SyncEngine::sync.  [refuse d n t] is the mass-deletion test (Threshold.refuse false);
    dst_listing is the destination scan (parent-first).  *)
 Definition run (refuse : Z -> Z -> Z -> bool) (ds : path -> N * Z) (c : cfg) (now : Z) (U : list path)
-           (src : list sentry) (dst : fs) : report :=
+           (keep : list sentry) (src : list sentry) (dst : fs) : report :=
   let dst_listing := filter (fun p => match dst p with Some _ => true | None => false end) U in
   let tasks := map (plan_entry c ds dst) src in
-  let dels := if c_delete c then plan_deletions src dst_listing else [] in
+  let dels := if c_delete c then plan_deletions (keep ++ src) dst_listing else [] in
   if c_delete c && negb (c_force_delete c) && negb (match dels with [] => true | _ => false end)
      && refuse (Z.of_nat (length dels)) (Z.of_nat (length dst_listing)) (c_threshold c)
   then mk_report dst [] [] true
